@@ -372,4 +372,42 @@ Proof.
       destruct (Hc v j r true (Hlt v (in_or_app pre [v] v (or_intror (or_introl eq_refl)))) (Hbound _ _ _ _ Hd) Hd) as [b' Hb'].
       destruct (Hreal v b' Hb') as [j2 [r2 Hd2]]. rewrite (Huniq _ _ _ _ _ _ _ Hd2 Hd) in Hb'. exact Hb'.
 Qed.
+Lemma choose_noroot_inv d ord : choose d ord = NoRoot -> exists v, nth v d None = Some true /\ voted_root v = None.
+Proof.
+  induction ord as [|u ord IH]; cbn [ElectionSpec.choose]; [discriminate|].
+  destruct (nth u d None) as [[|]|] eqn:E; try discriminate.
+  - destruct (voted_root u) eqn:Ex; [discriminate|]. intros _. exists u. auto.
+  - exact IH.
+Qed.
+
+Lemma choose_allno_inv d ord : choose d ord = AllNo -> forall u, In u ord -> nth u d None = Some false.
+Proof.
+  induction ord as [|u ord IH]; cbn [ElectionSpec.choose]; [intros _ u []|].
+  destruct (nth u d None) as [[|]|] eqn:E; try discriminate.
+  - destruct (voted_root u); discriminate.
+  - intros H u' [<-|Hu']; [exact E|apply IH; assumption].
+Qed.
+
+(* the two error outcomes of the reference, in terms of rule-level decisions *)
+Theorem decide_noroot_inv maxf : decide maxf = NoRoot -> exists v k r, decides k r v true /\ voted_root v = None.
+Proof.
+  unfold ElectionSpec.decide. intros H.
+  destruct (run_rounds_spec (N.to_nat (maxf - f0)) 1 _ (repeat None nv) ltac:(lia) round1_ok (repeat_length _ _))
+    as [dec' [E [_ [Hsound _]]]].
+  change 1 with (N.of_nat 1) in H. rewrite E in H.
+  destruct (choose_noroot_inv _ _ H) as [v [Hv Hx]].
+  destruct (Hsound v true Hv) as [Hn|[j [r [_ Hd]]]]; [rewrite nth_repeat_none in Hn; discriminate|].
+  exists v, j, r. auto.
+Qed.
+
+Theorem decide_allno_inv maxf : decide maxf = AllNo -> forall u, In u order -> exists k r, decides k r u false.
+Proof.
+  unfold ElectionSpec.decide. intros H u Hu.
+  destruct (run_rounds_spec (N.to_nat (maxf - f0)) 1 _ (repeat None nv) ltac:(lia) round1_ok (repeat_length _ _))
+    as [dec' [E [_ [Hsound _]]]].
+  change 1 with (N.of_nat 1) in H. rewrite E in H.
+  pose proof (choose_allno_inv _ _ H u Hu) as Hv.
+  destruct (Hsound u false Hv) as [Hn|[j [r [_ Hd]]]]; [rewrite nth_repeat_none in Hn; discriminate|].
+  exists j, r. exact Hd.
+Qed.
 End Election.
